@@ -78,6 +78,10 @@ SEEDS = {
            "a vocabulary-only stream whose rests overfill a bar before its BAR token: every later note is annotated later than detokenise places it"),
  "C11-b": ("C11", "Bar.__init__: the pad length `int(n * PPQN / (d / 4))` rewritten as `n * PPQN // (d / 4)`; the divisor is a float, so floor division returns a float",
            "a bar built from a sequence shorter than its capacity (last bar of a track, placeholder bars of a shorter track), then anything that concatenates after the padded bar"),
+ "C02-c": ("C02", "_construct_dictionary: `self._dictionary_size += 1` dedented out of the loop over the velocity bins (standalone VELOCITY tokens): every vel_XXX gets the same id",
+           "flag_fuse_velocity=False with velocity_bins >= 2: decode(encode(.)) returns the top bin for every velocity, dictionary_size < len(dictionary)"),
+ "C05-c": ("C05", "quantise: the recorded spans `message_timings[(channel, pitch)]` replaced by `note_endings[pitch]` (pitch alone) at three sites; the open-note table keeps the full key",
+           "the same pitch on two channels, a note-on on one channel quantising to a tick before the quantised end of a note on the other: the second note disappears"),
  "C17-a": ("C17", "equals: the tick comparison moved into the NOTE_ON branch; time and key signatures are compared by value only",
            "two sequences identical except for the tick of one signature, with no compared event of the channel between the old and the new tick"),
 }
